@@ -228,6 +228,10 @@ oracle("c06.comb")(ccheck)
 
 PLAN = {
     "quick": [dict(harness="c06.cancel", bound=2), dict(harness="c06.cancel.lines", bound=1),
+              # the cell in which the thorough tier found cancel() raising (two cancels around the end of a
+              # failed attempt): kept at d=2 in the quick tier as a regression
+              dict(harness="c06.cancel.lines", bound=2,
+                   select=lambda p: p["layers"] == ("retry",) and p["ncan"] == 1 and p["when"] == 0.0 and p["script"] == ("E", "E", "ok")),
               dict(harness="c06.comb", bound=2)],
     # thorough = quick + one more deviation on the single-layer cells and the one-canceller two-layer cells (tools/size_plan.py:
     # the extra deviation over all 73 / 45 cells is ~2 h on 16 cores)
